@@ -126,6 +126,11 @@ func NewContainer() vmcommon.BuiltInFunctionContainer {
 	return c
 }
 
+// NewEmptyContainer returns a container that holds nothing (a Remove can drain it).
+func NewEmptyContainer() vmcommon.BuiltInFunctionContainer {
+	return builtInFunctions.NewBuiltInFunctionContainer()
+}
+
 // MapBodies builds the thread bodies of an H1 program.
 func MapBodies(c vmcommon.BuiltInFunctionContainer, prog [][]MapOp, h *History) []func() {
 	var out []func()
